@@ -85,11 +85,8 @@ def run(prog: Program, ctx: Ctx) -> None:  # noqa: PLR0912,PLR0915
     for s, g, w in bad[:3]:
         ctx.ob("R1", f"is_wildcard_exposed|{visibility.fmt(s)}", False, f"code gives {g}, `from m import *` semantics give {w} for [{visibility.fmt(s)}]", where(f))
     ctx.expect_min("R1", len(rows), 900)
-    ew = prog.function(f"{L}._expand_wildcard")
-    filt = [c for n in ast.walk(ew.node) if isinstance(n, ast.comprehension) for c in n.ifs]
-    txt = " and ".join(unparse(c) for c in filt)
-    ctx.ob("R1", key(ew, "filter"), "is_wildcard_exposed" in txt and ("/*" in txt or ".wildcard" in txt),
-           f"wildcard expansion collects exactly the exposed members and never an unexpanded wildcard placeholder (filter: {txt})", where(ew))
+    # (that expansion collects exactly the exposed members, and never an unexpanded wildcard placeholder, is decided on behaviour by the wildcard table
+    # R2 and by C06-R8 "no placeholder is left"; a check of the collector's filter text was retired when the collector was renamed and rewritten as a loop)
 
     # ------------------------------------------------------------------ R2
     ctx.rule("R2", "expand_wildcards: an existing member is overwritten exactly when the wildcard import sits on a later line (missing line = 0); "
